@@ -288,7 +288,7 @@ func c28StoreGrid(rep *EnumReport, dir string) {
 // ---------------------------------------------------------------- part B: operations
 
 type c28Op struct {
-	Kind    string // poll | reqpoll | racepoll | connect | disconnect | clock | polltick | sweeptick | forcepoll | reopen
+	Kind    string // poll | reqpoll | racepoll | connect | disconnect | clock | polltick | sweeptick | sendfault | forcepoll | reopen
 	Peer    int
 	Ver     int // offset to this node's protocol version
 	Variant int
@@ -338,13 +338,15 @@ func c28Alphabet(tier string) ([]c28Op, string) {
 		ops = append(ops, c28Op{Kind: "connect", Peer: 0}, c28Op{Kind: "disconnect", Peer: 0}, c28Op{Kind: "polltick"}, c28Op{Kind: "sweeptick"})
 		return ops, "sweep: peer P only; clock steps of one poll interval and of 40 s, connect / disconnect, a manual poll pass, a manual cleanup sweep"
 	}
-	msg := func(kind string, peer, ver, variant int) { ops = append(ops, c28Op{Kind: kind, Peer: peer, Ver: ver, Variant: variant}) }
+	msg := func(kind string, peer, ver, variant int) {
+		ops = append(ops, c28Op{Kind: kind, Peer: peer, Ver: ver, Variant: variant})
+	}
 	global := func() {
 		for _, d := range []time.Duration{11 * time.Second, 6 * time.Minute, 31 * time.Minute} {
 			ops = append(ops, c28Op{Kind: "clock", D: d})
 		}
 		ops = append(ops, c28Op{Kind: "clock", D: 6 * time.Minute, SweepFirst: true})
-		ops = append(ops, c28Op{Kind: "polltick"}, c28Op{Kind: "forcepoll"}, c28Op{Kind: "reopen"}, c28Op{Kind: "sweeptick"})
+		ops = append(ops, c28Op{Kind: "polltick"}, c28Op{Kind: "forcepoll"}, c28Op{Kind: "reopen"}, c28Op{Kind: "sweeptick"}, c28Op{Kind: "sendfault"})
 	}
 	if tier == "thorough" {
 		for _, v := range []int{-1, 0, 1} {
@@ -393,7 +395,8 @@ type c28Send struct {
 	Typ     messages.MessageType
 	Phase   string // initial | regular | forced | deliver (set by the driver: what is running)
 	Known   bool   // the peer had a store record when the message went out
-	Failed  bool   // the peer was not connected: the port returned an error
+	Failed  bool   // the port returned an error (peer not connected, or an injected send failure)
+	Conn    bool   // the peer was connected when the message went out
 	Payload []byte
 }
 
@@ -406,16 +409,17 @@ type c28Lightning struct {
 	// the poll pass started by the ticker at an instant where the cleanup ticker fires too is
 	// held at its first Lightning call until the driver has seen what the sweep does
 	manualSweep bool // the driver itself runs a sweep (hook VerifCleanupExpired): no gate
+	failSends   int  // the next n sends to connected peers fail (operation sendfault)
 	holdPoll    bool
 	pollGate    chan struct{}
 	pollPending int
 	phase       string
-	store     *peersync.Store
-	sends     []c28Send
-	tbl       map[int]time.Time // mirror of the poller's request table, used for state de-duplication only
-	inject    *peersync.CustomMessage
-	injected  bool
-	listCalls int
+	store       *peersync.Store
+	sends       []c28Send
+	tbl         map[int]time.Time // mirror of the poller's request table, used for state de-duplication only
+	inject      *peersync.CustomMessage
+	injected    bool
+	listCalls   int
 }
 
 func c28FromCleanup() bool {
@@ -477,12 +481,19 @@ func (l *c28Lightning) SendCustomMessage(_ context.Context, to peersync.PeerID, 
 	l.mu.Lock()
 	phase := l.phase
 	var sendErr error = errors.New("peer is not connected") // what lnd / cln answer for a peer that is not connected
+	conn := false
 	for _, c := range l.connected {
 		if c == to {
 			sendErr = nil
+			conn = true
 		}
 	}
-	l.sends = append(l.sends, c28Send{time.Now(), idx, typ, phase, known, sendErr != nil, append([]byte{}, payload...)})
+	if conn && l.failSends > 0 {
+		// injected: the message to a connected peer is not delivered (send timeout)
+		l.failSends--
+		sendErr = errors.New("send custom message: context deadline exceeded (injected)")
+	}
+	l.sends = append(l.sends, c28Send{time.Now(), idx, typ, phase, known, sendErr != nil, conn, append([]byte{}, payload...)})
 	if typ == messages.MESSAGETYPE_REQUEST_POLL && !known && (phase == "regular" || phase == "forced") {
 		l.tbl[idx] = time.Now()
 	}
@@ -569,20 +580,20 @@ type c28Worker struct {
 
 type c28X struct {
 	sweepFirst bool // order at coincident ticks during the current clock operation
-	w         *c28Worker
-	dir, path string
-	own       uint64
-	ids       []peersync.PeerID
-	store     *peersync.Store
-	ps        *peersync.PeerSync
-	ln        *c28Lightning
-	cancel    context.CancelFunc
-	ctx       context.Context
-	startAt   time.Time
-	m         *c28Model
-	res       *c28Res
-	hist      []string
-	sendsDone int
+	w          *c28Worker
+	dir, path  string
+	own        uint64
+	ids        []peersync.PeerID
+	store      *peersync.Store
+	ps         *peersync.PeerSync
+	ln         *c28Lightning
+	cancel     context.CancelFunc
+	ctx        context.Context
+	startAt    time.Time
+	m          *c28Model
+	res        *c28Res
+	hist       []string
+	sendsDone  int
 }
 
 func (x *c28X) violate(key, detail string) {
@@ -826,6 +837,11 @@ func (x *c28X) apply(o c28Op) error {
 	case "polltick":
 		x.ps.PollAllPeers(x.ctx)
 		synctest.Wait()
+	case "sendfault":
+		// the next message to a connected peer is not delivered (the port reports a send timeout)
+		x.ln.mu.Lock()
+		x.ln.failSends = 1
+		x.ln.mu.Unlock()
 	case "sweeptick":
 		// one cleanup sweep at this very instant (what the cleanup ticker does), between two other operations
 		x.ln.mu.Lock()
@@ -981,7 +997,7 @@ func (x *c28X) apply(o c28Op) error {
 		if s.Typ != messages.MESSAGETYPE_REQUEST_POLL || s.Known || s.To < 0 {
 			continue
 		}
-		if s.Failed {
+		if !s.Conn {
 			// the peer was not connected when this went out (e.g. a poll pass working from the record
 			// list it read before a sweep removed the peer): not a request to an unknown CONNECTED peer
 			x.out("info:request_poll_to_disconnected_peer_without_record")
@@ -1107,6 +1123,11 @@ func (x *c28X) key() (string, error) {
 		b.WriteString("] ")
 	}
 	fmt.Fprintf(&b, "phase=%s", now.Sub(x.startAt)%c28CleanupEvery)
+	x.ln.mu.Lock()
+	if x.ln.failSends > 0 {
+		fmt.Fprintf(&b, " sendfault=%d", x.ln.failSends)
+	}
+	x.ln.mu.Unlock()
 	return b.String(), nil
 }
 
